@@ -3,6 +3,7 @@ package server
 import (
 	"context"
 	"fmt"
+	"io"
 	"math/rand"
 	"path/filepath"
 	"strconv"
@@ -501,6 +502,9 @@ func (p *partition) newSubscribeLoop(ctx context.Context, groupID string, sub *s
 				} else if err == commitlog.ErrCommitLogReadonly {
 					// Partition was set to readonly while subscribed.
 					s = status.New(codes.ResourceExhausted, "End of readonly partition")
+				} else if err == io.EOF {
+					// A reverse reader has gone past the oldest message.
+					s = status.New(codes.ResourceExhausted, "Beginning of partition reached")
 				} else {
 					s = status.Convert(err)
 				}
